@@ -71,7 +71,7 @@ def run(ctx):
             d = os.path.join(ws.dir, name)
             os.makedirs(os.path.join(d, "h"), exist_ok=True)
             open(os.path.join(d, "h", "h.go"), "w").write(htmpl)
-            rc, out, d = ws.gocc(name, cfggen.full_text(g, "x/%s/h" % name), flags=["-a"] + fl)
+            rc, out, d = ws.gocc(name, cfggen.full_text(g, "x/%s/h" % name), flags=fl)
             if rc != 0:
                 ok = False
                 break
@@ -136,7 +136,10 @@ def run(ctx):
             b = bins.get((name, "cmd"))
             if b is None:
                 return fl, None
-            p = subprocess.run([b], input=text, capture_output=True, text=True, timeout=300)
+            try:
+                p = subprocess.run([b], input=text, capture_output=True, text=True, timeout=240)
+            except subprocess.TimeoutExpired:
+                return fl, None
             res = [l[4:] for l in p.stdout.split("\n") if l.startswith("@@R ")]
             tabs = [l[4:] for l in p.stdout.split("\n") if l.startswith("@@T ")]
             noise = any(not l.startswith("@@") and l.strip() for l in p.stdout.split("\n"))
